@@ -1236,11 +1236,15 @@ pub struct Built {
     pub expected: ServerInfo,
 }
 
-fn legacy_parts(srv: &Srv, clients: &[Cl]) -> Vec<Vec<u8>> {
+/// `sizes`: number of clients in part i (1..=24, the format's maximum per packet); parts beyond the
+/// list are cut the way the reference server does (24 per packet). Any cut is legal: a part names
+/// the slot of its first client in its offset field.
+fn legacy_parts(srv: &Srv, clients: &[Cl], sizes: &[u8]) -> Vec<Vec<u8>> {
     let mut parts = Vec::new();
     let mut off = 0;
     loop {
-        let end = (off + 24).min(clients.len());
+        let want = sizes.get(parts.len()).copied().unwrap_or(24).clamp(1, 24) as usize;
+        let end = (off + want).min(clients.len());
         parts.push(datagram(
             Info664,
             &PRE,
@@ -1305,7 +1309,7 @@ pub fn build(c: &MergeCase) -> Built {
     let parts = if c.ex {
         extended_parts(&srv, &c.clients, main_n, &c.sizes)
     } else {
-        legacy_parts(&srv, &c.clients)
+        legacy_parts(&srv, &c.clients, &c.sizes)
     };
     let mut other = srv.clone();
     other.token = srv.token.wrapping_add(1);
@@ -1318,11 +1322,11 @@ pub fn build(c: &MergeCase) -> Built {
         legacy.num_players = srv.num_players.min(64);
         (
             extended_parts(&other, &c.clients, main_n, &c.sizes),
-            legacy_parts(&legacy, &c.clients[..c.clients.len().min(64)]),
+            legacy_parts(&legacy, &c.clients[..c.clients.len().min(64)], &[]),
         )
     } else {
         (
-            legacy_parts(&other, &c.clients),
+            legacy_parts(&other, &c.clients, &c.sizes),
             extended_parts(&srv, &c.clients, c.clients.len().min(3), &[5; 64]),
         )
     };
@@ -1620,6 +1624,10 @@ fn merge_strategy(with_repeats: bool) -> impl Strategy<Value = MergeCase> {
         2 => (proptest::collection::vec(honest_client(), 0..=24)).prop_map(|c| (false, c, 0u16, vec![])),
         3 => (proptest::collection::vec(honest_client(), 25..=48)).prop_map(|c| (false, c, 0u16, vec![])),
         5 => (proptest::collection::vec(honest_client(), 49..=64)).prop_map(|c| (false, c, 0u16, vec![])),
+        // legacy infos cut unevenly (offsets that are not multiples of 24), down to one client per part
+        4 => (proptest::collection::vec(honest_client(), 2..=64), proptest::collection::vec(1u8..=24, 64)).prop_map(|(c, s)| (false, c, 0u16, s)),
+        3 => (proptest::collection::vec(honest_client(), 8..=64), proptest::collection::vec(1u8..=9, 64)).prop_map(|(c, s)| (false, c, 0u16, s)),
+        1 => (proptest::collection::vec(honest_client(), 40..=64), Just(vec![1u8; 64])).prop_map(|(c, s)| (false, c, 0u16, s)),
         6 => (proptest::collection::vec(honest_client(), 0..=12), any::<u16>(), proptest::collection::vec(1u8..=4, 64))
             .prop_map(|(c, m, s)| (true, c, m, s)),
         5 => (proptest::collection::vec(honest_client(), 0..=64), any::<u16>(), proptest::collection::vec(1u8..=30, 64))
